@@ -369,7 +369,7 @@ func c13CheckFaultCLI(a vh.Args, r *vh.Result, rng *vh.Rand, id int) error {
 }
 
 func c13RunFaults(a vh.Args, o *vh.Oracle, r *vh.Result, rng *vh.Rand, thorough bool) error {
-	n := 3
+	n := 2
 	if thorough {
 		n = 12
 	}
